@@ -582,3 +582,71 @@ def r11k(R):
                 'that form (e.g. the one-digit hour of 8:00) matches nothing '
                 'and the script waits for ever' % (mname, attr),
                 path=path_text(p) if p else None)
+
+
+@rule('R11.l', ('C11', 'C01'), '`time at P1 or P2 ...`: each pattern token is '
+      'checked, compiled and consumed; each `or` is consumed', floor=4,
+      decides='every well-formed list of alternatives compiles, patterns that '
+              'are no time of day are rejected, and nothing is compiled from '
+              'a missing pattern')
+def r11l(R):
+    A = R.A
+    from .c01 import _emit_nodes_with
+    f = A.func('bardolph.parser.parse', 'Parser._process_time_patterns')
+    cfg = A.cfg(f)
+    reads = [n for n in cfg.nodes if n.kind == 'stmt' and isinstance(n.ast, ast.Assign)
+             and isinstance(n.ast.value, ast.Call)
+             and 'Parser._current_time_pattern' in A.callee_names(f, n.ast.value)
+             and isinstance(n.ast.targets[0], ast.Name)]
+    if not reads:
+        raise AnalysisError('_process_time_patterns: pattern reads not found')
+    var = reads[0].ast.targets[0].id
+    emits = _emit_nodes_with(A, f, 'TIME_PATTERN')
+    nexts = [n for n in cfg.nodes for c in n.calls()
+             if isinstance(c.func, ast.Attribute) and c.func.attr == 'next_token']
+    ors = [n for n in cfg.nodes if n.kind == 'cond' and any(
+        getattr(A.try_fold(a, f), 'member', None) == 'OR'
+        for c in n.calls() for a in c.args)]
+    ok = bool(emits) and all(('%s is None' % var, False) in A.path_facts(f, n)
+                             for n in emits)
+    R.check(f, 'TIME_PATTERN is emitted only for a pattern that was recognised',
+            ok, 'a TIME_PATTERN instruction is compiled on the path where the '
+            'token is NOT a valid pattern (and valid ones are rejected): '
+            '`time at 12:00` fails, `time at 25:00` compiles to a pattern of '
+            'None')
+    p = cfg.find_path([m for n in emits for m, _l in n.succs],
+                      lambda n: n in ors or n in reads or (
+                          n.is_return and A.ret_class(f, n)[0] != 'fail'),
+                      avoid=nexts) if emits else []
+    R.check(f, 'the pattern token is consumed after it is compiled',
+            bool(nexts) and p is None,
+            'after a pattern is compiled the token is not consumed: the next '
+            'statement (or `or`) is parsed from the pattern itself and a '
+            'valid script is rejected', path=path_text(p) if p else None)
+    q = None
+    if ors:
+        starts = [m for n in ors for m, lab in n.succs if lab is True]
+        q = cfg.find_path(starts, lambda n: n in reads, avoid=nexts)
+    R.check(f, 'each `or` is consumed before the next pattern is read',
+            bool(ors) and q is None,
+            'the `or` token is not consumed: the next alternative is read from '
+            'the word `or` itself and every list of alternatives is rejected',
+            path=path_text(q) if q else None)
+    # the time statement itself
+    t = A.func('bardolph.parser.parse', 'Parser._time')
+    tcfg = A.cfg(t)
+    tnext = [n for n in tcfg.nodes for c in n.calls()
+             if isinstance(c.func, ast.Attribute) and c.func.attr == 'next_token']
+    at = [n for n in tcfg.nodes if n.kind == 'cond' and any(
+        getattr(A.try_fold(a, t), 'member', None) == 'AT'
+        for c in n.calls() for a in c.args)]
+    proc = A.calls_nodes(t, 'Parser._process_time_patterns')
+    ok = bool(at and proc and tnext) and \
+        tcfg.find_path([tcfg.entry], lambda n: n in at, avoid=tnext) is None and \
+        tcfg.find_path([m for n in at for m, lab in n.succs if lab is True],
+                       lambda n: n in proc, avoid=tnext) is None and \
+        all(n.id not in reachable_without_edges(
+            tcfg, tcfg.entry, {(a.id, True) for a in at}) for n in proc)
+    R.check(t, '`time` is consumed, then `at` is consumed, then the patterns', ok,
+            'the words `time` / `at` are not consumed before the patterns are '
+            'parsed: every `time at ...` statement is rejected')
